@@ -17,9 +17,9 @@ def make_plan(ths, tier, rnd):
         if not sig.models:
             continue
         api = histories.api_of(sig, modelcheck.module_path(theory))
-        for _ in range(150 if thorough else 30):
+        for _ in range(50 if thorough else 30):
             fam += 1
-            for steps in histories.family_c17(sig, api, rnd, rnd.randint(3, 8), 6 if thorough else 3):
+            for steps in histories.family_c17(sig, api, rnd, rnd.randint(3, 8), 4 if thorough else 3):
                 plan.add(theory, steps, fam)
     return plan
 
